@@ -208,6 +208,7 @@ class UseNumbaEligibility(Contract):
     """use_numba(x): the accelerated twin is chosen only when USE_NUMBA is on and the column is boolean, integer
     (incl. timedelta, which NumPy files under integer), float or datetime."""
     file, qualname, prop = F, "use_numba", "C08"
+    also = ("C07",)             # with Numba installed the group-wise helpers of C07 run through the compiled twins by default
     always_bounded = True       # the JIT / cache / compile-order part of C08 exists only as a bounded run-time contract
 
     def setup(self, cx):
@@ -733,3 +734,32 @@ class _GQuantile(_GroupForm):
 
 for _d in (True, False):
     _reg(_GQuantile, "quantile", f"group-wise form, drop_na={_d}", drop=_d)
+
+
+# ---------------------------------------------------------------------------------------------------------------------
+# Numba twins of the *_apply kernels at source level (C08, also checked under C07): with USE_NUMBA on and an eligible
+# column the group-wise nth / first / last go through nth_apply_numba.  @njit is treated as transparent (what Numba
+# compiles is assumed to be this source: the JIT itself is covered by the bounded matrix only); yield_groups_numba enters
+# through the contract it was proved to share with yield_groups.
+# ---------------------------------------------------------------------------------------------------------------------
+NUMBA_GROUP_CALLEES = dict(GROUP_CALLEES)
+NUMBA_GROUP_CALLEES["yield_groups_numba"] = yield_groups_contract
+
+
+def yield_groups_numba_logged(it, args, kwargs):
+    r = yield_groups_contract(it, args, kwargs)
+    return r
+
+
+class _GNthNumba(_GNth):
+    prop = "C08"
+    also = ("C07",)
+    callees = NUMBA_GROUP_CALLEES
+    config = {"USE_NUMBA": z3.BoolVal(True)}
+    kinds = ("bool", "int", "float", "datetime", "timedelta")
+
+
+for _d in (True, False):
+    _reg(_GNthNumba, "nth", f"group-wise form, Numba twin (source level), drop_na={_d}", drop=_d)
+    _reg(_GNthNumba, "first", f"group-wise form, Numba twin (source level), drop_na={_d}", drop=_d, fixed=0)
+    _reg(_GNthNumba, "last", f"group-wise form, Numba twin (source level), drop_na={_d}", drop=_d, fixed=-1)
